@@ -314,6 +314,29 @@ func TestC17(t *testing.T) {
 	rec.Require("model:parallel-lines", 0.03)
 	rec.Require("model:pure-computed-cycle", 0.01)
 	rec.Require("model:acyclic", 0.10)
+	// bounded exhaustive part: the small universe of the weighted-graph checks (wgSmallModel, 40 000 models);
+	// quick: every 32nd model, thorough: all of them over the shards
+	{
+		defs := smallDefs()
+		total := len(defs) * len(defs)
+		stride := 32
+		if ev.Thorough() {
+			stride = 1
+		}
+		var n int64
+		for idx := ev.Shard() + int(ev.Seed()%int64(stride))*ev.Shards(); idx < total; idx += ev.Shards() * stride {
+			m := wgSmallModel(defs, idx)
+			n++
+			in := c17Input{Model: m}
+			if msg := c17Check(in); msg != "" {
+				in.Text = m.String()
+				rec.Violation(in, msg)
+				t.Fatalf("small universe model #%d: %s\n%s", idx, msg, m.String())
+			}
+		}
+		rec.Bulk(n, n, map[string]int64{"small-universe:models": n})
+		rec.Note("small universe: %d of %d models (stride %d)", n, total, stride)
+	}
 	rapid.Check(t, func(rt *rapid.T) {
 		m := c17Draw(rt)
 		rg := ref.BuildPlain(m)
